@@ -13,7 +13,7 @@ WITNESSES = [("XRef_w_stream.cfg", "stream_entry_overwritten"), ("XRef_w_ge.cfg"
 def run(tier, seed):
     t0 = time.time()
     v = vlib.Verdict(PID)
-    cfgs = ["XRef_q.cfg"] if tier == "quick" else ["XRef_q.cfg", "XRef_t3.cfg", "XRef_t2r.cfg"]
+    cfgs = ["XRef_q.cfg", "XRef_q3.cfg"] if tier == "quick" else ["XRef_q.cfg", "XRef_q3.cfg", "XRef_t3.cfg", "XRef_t2r.cfg"]
     states = trans = 0
     cases = []
     cov = {}
